@@ -427,6 +427,26 @@ pub fn s_mpp() -> Vec<WCfg> {
             out.push(c);
         }
     }
+    // a second, unrelated payment is busy (funded, extra parts arriving while it pays) while a partial set waits
+    {
+        let mut c = WCfg::base("S-mpp/T60000ms/other-hash-busy");
+        c.advance_menu_ms = vec![60_000, 59_999, 2];
+        c.max_advances = 3;
+        let ia = c.add_invoice(&InvoiceSpec::fixed(1, 1_000_000));
+        let ib = c.add_invoice(&InvoiceSpec::fixed(2, 1_000_000));
+        c.add_htlc("m1", ib, 1_005_000, 1_005_000);
+        c.add_htlc("x1", ib, 1, 1_005_000);
+        c.add_htlc("x2", ib, 1, 1_005_000);
+        c.add_htlc("p1", ia, 300_000, 1_005_000);
+        c.invoices.swap(0, 1);
+        for t in c.templates.iter_mut() {
+            if let Class::Trampoline { invoice, .. } = &mut t.class {
+                *invoice = 1 - *invoice;
+            }
+        }
+        c.max_parts = 1;
+        out.push(c);
+    }
     // restart finds a stored history
     for kind in ["free", "pending-nopart", "pending-failedpart", "pending-noattempt"] {
         for age_s in [0u64, 30, 59, 60, 600] {
@@ -505,6 +525,9 @@ pub fn s_many() -> Vec<WCfg> {
         c.add_htlc("m2", 0, 605_000, 1_005_000);
         c.add_htlc("m3", 0, 1, 1_005_000);
         c.add_htlc("ut", 0, 1, 1_004_999);
+        // violates the expiry policy and the declared-total policy at once (two rejection requests from one HTLC)
+        let lu = c.add_htlc("lu", 0, 1, 1_004_000);
+        c.templates[lu].spec.cltv_expiry = c.start_height + 1000;
         c.max_parts = 1;
         c.write_faults = true;
         out.push(c);
@@ -786,7 +809,7 @@ pub fn s_passthrough(thorough: bool) -> Vec<WCfg> {
 /// Payment A (hash tag 1) is frozen after `k` of its events; payment B (hash tag 2) runs S-life.
 pub fn s_isolation(thorough: bool) -> Vec<WCfg> {
     let mut out = Vec::new();
-    for a_kind in ["funded", "partial"] {
+    for a_kind in ["funded", "partial", "rejected-twice"] {
         let mk = |with_a: bool| {
             let mut c = WCfg::base("x");
             let ia = c.add_invoice(&InvoiceSpec::fixed(1, 1_000_000));
@@ -794,8 +817,12 @@ pub fn s_isolation(thorough: bool) -> Vec<WCfg> {
             if with_a {
                 if a_kind == "funded" {
                     c.add_htlc("a", ia, 1_005_000, 1_005_000);
-                } else {
+                } else if a_kind == "partial" {
                     c.add_htlc("a", ia, 500_000, 1_005_000);
+                } else {
+                    // one HTLC that violates the expiry policy and the declared-total policy at once
+                    let t = c.add_htlc("a", ia, 500_000, 1_004_000);
+                    c.templates[t].spec.cltv_expiry = c.start_height + 1000;
                 }
             }
             c.add_htlc("b1", ib, 1_200_000, 2_010_000);
@@ -812,7 +839,7 @@ pub fn s_isolation(thorough: bool) -> Vec<WCfg> {
             s.name = format!("S-iso/{}/solo", a_kind);
             with_props(s, &[])
         };
-        let max_k = if a_kind == "funded" { 10 } else { 3 };
+        let max_k = if a_kind == "funded" { 10 } else if a_kind == "partial" { 3 } else { 2 };
         for k in 1..=max_k {
             let mut c = mk(true);
             c.name = format!("S-iso/{}/freeze-after-{}", a_kind, k);
